@@ -75,6 +75,17 @@ func (m c05mon) Check(s *sim.Sim, st *sim.Step) []*sim.Violation {
 	if a.Opt["extraquery"] != "" { // request deliberately broken elsewhere: rejection is the only sane outcome
 		accept = false
 	}
+	if rec.FaultsFired > 0 && accept {
+		// a backend failed while the genuine token was being used: either outcome, but it must stay
+		// within the token's own account
+		for _, ch := range rec.Diff() {
+			if ch.PID != tok.PID {
+				return []*sim.Violation{vio("C05", "faulted-use-touched-other-account", "a faulted use of %q's %s token changed %s of %q", tok.PID, kind, ch.Field, ch.PID)}
+			}
+		}
+		m.stats.Count("faulted-genuine-use:" + kind)
+		return nil
+	}
 	diff := rec.Diff()
 	m.stats.Count("submitted:" + kind + ":" + a.Resolved)
 	var vs []*sim.Violation
@@ -344,6 +355,12 @@ func c05Unit(c *RunCtx, unit int) {
 					step(act("advance", 0, -9, "", "d", (10 * ttl).String()))
 					finalCls += "@10ttl"
 				}
+			}
+			if r.Intn(3) == 0 {
+				// a backend call of the consuming request fails: no demand on that request, but whatever
+				// it did, the token must not be usable twice afterwards
+				s.W.Faults = map[int]error{1 + r.Intn(4): errGeneric}
+				c.Stats.Count("genuine-use-with-backend-fault")
 			}
 			step(litTok(kind, r.Intn(2), ai, final, finalCls, newpw))
 			if final != t.Token {
